@@ -36,6 +36,10 @@ type dir struct {
 
 	// fault: the failWrite-th Write call (1-based) fails once, writing nothing
 	failWrite, nWrites int
+	// fault: from the shortFrom-th Write call on, shortCount consecutive calls
+	// transfer only a part of their bytes and report shortErr
+	shortFrom, shortCount int
+	shortErr              error
 }
 
 // ErrInjectedWrite is returned by a Write that was selected to fail.
@@ -46,6 +50,20 @@ var ErrInjectedWrite = errors.New("simlink: injected write error")
 func (e *End) FailWrite(n int) {
 	e.out.mu.Lock()
 	e.out.failWrite = n
+	e.out.mu.Unlock()
+}
+
+// ErrInjectedTimeout is reported by a Write that transferred only a part of
+// its bytes before its (simulated) deadline expired.
+var ErrInjectedTimeout = errors.New("simlink: write deadline expired after a partial write")
+
+// ShortWrites makes count consecutive Write calls on this end, starting with
+// the n-th (1-based), transfer only a part of their bytes (half of them, at
+// least one) and return that count together with err (io.ErrShortWrite or a
+// timeout); later writes are complete again.
+func (e *End) ShortWrites(n, count int, err error) {
+	e.out.mu.Lock()
+	e.out.shortFrom, e.out.shortCount, e.out.shortErr = n, count, err
 	e.out.mu.Unlock()
 }
 
@@ -95,6 +113,17 @@ func (e *End) Write(p []byte) (int, error) {
 	d.nWrites++
 	if d.failWrite > 0 && d.nWrites == d.failWrite {
 		return 0, ErrInjectedWrite
+	}
+	if d.shortFrom > 0 && d.nWrites >= d.shortFrom && d.nWrites < d.shortFrom+d.shortCount && len(p) > 0 {
+		take := len(p) / 2
+		if take == 0 {
+			take = 1
+		}
+		if take < len(p) {
+			d.data = append(d.data, p[:take]...)
+			d.writes = append(d.writes, len(d.data))
+			return take, d.shortErr
+		}
 	}
 	d.data = append(d.data, p...)
 	d.writes = append(d.writes, len(d.data))
